@@ -355,6 +355,13 @@ Section DriverFacts.
     rn. dif; [exact Hh|]. apply loop_fd_hd_le. exact Hh.
   Qed.
 
+  (* n_iter = 0: no iteration is performed; the profile is one update of the caller's estimate *)
+  Lemma iterate_fd_zero_iterations sh n (est : R) : (0 < n)%nat ->
+    iterate_fdR sh n est 0%nat = upfR (repeat est n) (sgr_of (repeat est n)) ds /\ hd 0 (iterate_fdR sh n est 0%nat) = est.
+  Proof.
+    intros Hn. unfold iterate_fd. simpl. split; [reflexivity|]. rewrite update_forward_hd. apply hd_repeat. exact Hn.
+  Qed.
+
   Lemma iterate_fd_initial_le_mtow sh n (est : R) n_iter : (0 < n_iter)%nat -> hd 0 (iterate_fdR sh n est n_iter) <= mtow.
   Proof. intros H. unfold iterate_fd. apply loop_fd_hd_le_pos. exact H. Qed.
 
@@ -567,12 +574,24 @@ Lemma negative_thrust_replaced (E : engine) (P : params RNum) (m temp alt v rocd
   @calc_thrust RNum E P m temp alt v rocd acc cr = @descent_thrust_at RNum E P alt v temp.
 Proof. intros H. rewrite calc_thrust_reading. apply limit_negative_replaced. left. exact H. Qed.
 
-Lemma cruise_factor_only_in_cruise (N : Num) (E : engine) (P : params N) (pt : point N) (m : T N) :
-  @fuel_flow N E P pt m =
+Lemma cruise_factor_only_in_cruise (N : Num) (psec : bool) (E : engine) (P : params N) (pt : point N) (m : T N) :
+  @fuel_flow N psec E P pt m =
     if t_cruise pt
-    then @mul N (@nominal_fuel_flow N E P (@point_thrust N E P pt m) (t_vtas pt)) (p_c_fcr P)
-    else @nominal_fuel_flow N E P (@point_thrust N E P pt m) (t_vtas pt).
-Proof. unfold fuel_flow. destruct (t_cruise pt); [|reflexivity]. destruct E; reflexivity. Qed.
+    then @mul N (@nominal_fuel_flow N psec E P (@point_thrust N E P pt m) (t_vtas pt)) (p_c_fcr P)
+    else @nominal_fuel_flow N psec E P (@point_thrust N E P pt m) (t_vtas pt).
+Proof. unfold fuel_flow. destruct (t_cruise pt); [|reflexivity]. destruct E; try reflexivity. destruct psec; reflexivity. Qed.
+
+(* repaired piston flow (FC19b): C_f1 per minute -> per second, the same factor as in the jet / turboprop flows *)
+Lemma lit60_R f : @lit RNum 60 1 f = 60.
+Proof. cbv [lit RNum]. lra. Qed.
+
+Lemma piston_flow_per_second (P : params RNum) (thr v : R) :
+  @nominal_fuel_flow RNum true Piston P thr v = p_c_f1 P / 60 /\
+  @nominal_fuel_flow RNum false Piston P thr v = 60 * @nominal_fuel_flow RNum true Piston P thr v.
+Proof.
+  unfold nominal_fuel_flow, piston_nominal_fuel_flow. rewrite lit60_R. rn.
+  generalize (p_c_f1 P). intros c. change (T RNum) with R in c. split; [reflexivity|lra].
+Qed.
 
 (* ---- non-vacuity ---- *)
 Example all_nonneg_nonvacuous : all_nonneg [100; 300].
